@@ -36,6 +36,26 @@ static size_t compress_with(const pvec_t* p, int entry, void* dst, size_t cap, c
     }
     return r;
 }
+/* the frame is closed by a call of its own (no input left): entry 3 = stable-output streaming, flush everything, then e_end; entry 4 = buffer-less
+ * ZSTD_compressContinue + ZSTD_compressEnd(NULL, 0).  `cap` is the total room; the closing call sees what is left of it. */
+static size_t compress_closing(const pvec_t* p, int entry, int checksum, void* dst, size_t cap, const void* src, size_t n) {
+    size_t r; ZSTD_CCtx* c = ZSTD_createCCtx();
+    if (entry == 3) {
+        size_t e = pvec_apply(c, p); ZSTD_CCtx_setParameter(c, ZSTD_c_stableOutBuffer, 1); ZSTD_CCtx_setParameter(c, ZSTD_c_checksumFlag, checksum);
+        ZSTD_inBuffer in = { src, n, 0 }; ZSTD_outBuffer out = { dst, cap, 0 };
+        r = ZSTD_isError(e) ? e : ZSTD_compressStream2(c, &out, &in, ZSTD_e_flush);
+        if (!ZSTD_isError(r) && (r != 0 || in.pos != n)) r = (size_t)-ZSTD_error_dstSize_tooSmall;
+        if (!ZSTD_isError(r)) { r = ZSTD_compressStream2(c, &out, &in, ZSTD_e_end); if (!ZSTD_isError(r)) { if (out.pos > out.size) r = out.pos; else if (r != 0) r = (size_t)-ZSTD_error_dstSize_tooSmall; else r = out.pos; } }
+    } else {
+        ZSTD_parameters zp = ZSTD_getParams(p->strategy ? 3 : p->level, n, 0); zp.fParams.checksumFlag = checksum; zp.fParams.contentSizeFlag = 0;
+        if (p->strategy) { zp.cParams.strategy = (ZSTD_strategy)p->strategy; if (p->windowLog) zp.cParams.windowLog = (unsigned)p->windowLog; }
+        r = ZSTD_compressBegin_advanced(c, NULL, 0, zp, ZSTD_CONTENTSIZE_UNKNOWN);
+        if (!ZSTD_isError(r)) { size_t r1 = n ? ZSTD_compressContinue(c, dst, cap, src, n) : 0;
+            if (ZSTD_isError(r1)) r = r1; else if (r1 > cap) r = r1; else { size_t r2 = ZSTD_compressEnd(c, (char*)dst + r1, cap - r1, NULL, 0); r = ZSTD_isError(r2) ? r2 : r1 + r2; } }
+    }
+    ZSTD_freeCCtx(c);
+    return r;
+}
 
 static int decodes_to(const pvec_t* p, const void* frame, size_t flen, const void* src, size_t n) {
     ZSTD_DCtx* d = ZSTD_createDCtx(); if (p->magicless) ZSTD_DCtx_setParameter(d, ZSTD_d_format, ZSTD_f_zstd1_magicless);
@@ -44,21 +64,24 @@ static int decodes_to(const pvec_t* p, const void* frame, size_t flen, const voi
 }
 
 static void body_comp(void) {
-    int entry = vx_choose(3);
-    pvec_t p; if (entry == 1) { p = pvec_base(0); p.strategy = 0; p.windowLog = 0; p.level = PV_LEVELS[vx_choose(16)]; } else p = pvec_choose(0);
+    int entry = vx_choose(5), closingCk = entry >= 3 ? vx_choose(2) : 0;
+    pvec_t p; if (entry == 1) { p = pvec_base(0); p.strategy = 0; p.windowLog = 0; p.level = PV_LEVELS[vx_choose(16)]; }
+    else if (entry >= 3) { static const int LV[] = {1, 3, 7, 19}; p = pvec_base(0); p.strategy = 0; p.windowLog = 0; p.level = LV[vx_choose(4)]; }
+    else p = pvec_choose(0);
+    if (entry == 4) p.magicless = 0;      /* the buffer-less entry takes level / strategy / window from the vector, nothing else */
     seg_t segs[4]; int base = vx_choose(2); int asz = shape_alphabet_size(0);
     int segdev = (int)vx_opt_int("--segdev", 4);
     for (int i = 0; i < 4; i++) { int d = (i < segdev) ? vx_deviate(asz + 1) : 0; segs[i] = d ? shape_alphabet(d - 1, 0) : BASES[base][i]; }
     size_t W = pvec_window(&p); if (!W) W = 1024; size_t B = pvec_block(&p); if (B > W) B = W;
     size_t n = shape_render(segs, 4, W, B, 48, g_src, 450, 0);
     char sdesc[120], pdesc[256]; shape_describe(segs, 4, sdesc, sizeof sdesc); pvec_describe(&p, pdesc, sizeof pdesc);
-    vx_label("comp entry=%d ;; %s | %s n=%zu", entry, pdesc, sdesc, n);
+    vx_label("comp entry=%d ck=%d ;; %s | %s n=%zu", entry, closingCk, pdesc, sdesc, n);
     u8* src = (u8*)malloc(n ? n : 1); memcpy(src, g_src, n);
-    size_t bound = ZSTD_compressBound(n); long nsucc = 0, ntoosmall = 0; size_t minOK = (size_t)-1;
+    size_t bound = ZSTD_compressBound(n) + (entry >= 3 ? 16 : 0); long nsucc = 0, ntoosmall = 0; size_t minOK = (size_t)-1;      /* ZSTD_compressBound speaks of single-pass compression; a separately closed frame adds a block header and flush overhead */
     int capstep = (int)vx_opt_int("--capstep", 1); long ntried = 0;
     for (size_t cap = 0; cap <= bound + 8; cap += ((cap < 48 || cap + 48 > bound) ? 1 : (size_t)capstep)) {
         u8* dst = (u8*)malloc(cap ? cap : 1); ntried++;
-        size_t r = compress_with(&p, entry, dst, cap, src, n);
+        size_t r = entry >= 3 ? compress_closing(&p, entry, closingCk, dst, cap, src, n) : compress_with(&p, entry, dst, cap, src, n);
         if (ZSTD_isError(r)) {
             ntoosmall++;
             if (cap >= bound) { vx_fail("capacity %zu >= ZSTD_compressBound(%zu) = %zu but compression fails: %s", cap, n, bound, ZSTD_getErrorName(r)); free(dst); break; }
